@@ -6,6 +6,15 @@ from vlib.flow import dominators
 from vlib import prov, q, shape
 from rules import common
 
+def _is_main_module(m):
+    """sys.modules['__main__'] / sys.modules.get('__main__')"""
+    if m[0] == "item" and prov.show(m[1]) in ("sys.modules", "Global(sys).modules", "ext:sys.modules") and m[2] == ("const", "__main__"):
+        return True
+    if m[0] == "call" and m[1][0] == "attr" and m[1][2] == "get" and len(m[2]) >= 1 and m[2][0] == ("const", "__main__"):
+        return "sys" in prov.show(m[1][1]) and "modules" in prov.show(m[1][1])
+    return False
+
+
 META = {
     "explanation": (
         "Decides structural necessary conditions of the round trip: C07.1 every recursive call of jsonclass.load inside "
@@ -127,6 +136,10 @@ def check(ck):
         items = ("call", ("attr", ("param", "obj"), "items"), (), ())
         okk = t1 == ("unpack", ("elem", items), 0) and t2[0] == "call" and t2[1] == ("global", "load") and \
             t2[2] and t2[2][0] == ("unpack", ("elem", items), 1) and len(t2[2]) > 1 and t2[2][1] == ("param", "classes")
+        if not okk and t1[0] == "unpack" and t2[0] == "unpack" and t1[1] == t2[1] and t1[1][0] == "elem" and t1[1][1] != items and \
+                (t1[2], t2[2]) == (0, 1):
+            # (name, loaded value) pairs staged in an intermediate sequence before they are set: what the sequence holds is not followed
+            raise AnalysisError("jsonclass.load sets its fields from pairs staged in an intermediate sequence (%s): not modelled" % prov.show(t1[1][1])[:60])
         ck.require(okk, "C07.2", "%s: `%s`" % (q.fn(fl), dump(c)), "setattr(new_obj, key, load(value, classes)) over obj.items()",
                    "fields are not restored as setattr(new_obj, key, load(value, classes)) for every (key, value) of the "
                    "descriptor: %s / %s" % (prov.show(t1), prov.show(t2)[:80]), q.loc(fl, n))
@@ -190,7 +203,39 @@ def check(ck):
     fjd = prog.func("jsonrpc", "dump")
     fjl = prog.func("jsonrpc", "load")
     cs = q.call_sites(prog, fjd, lambda r, c: q.is_func(r, "jsonclass.dump"))
-    ck.require(len(cs) == 1, "C07.4", "jsonrpc.dump: jsonclass.dump call", "one call", "jsonrpc.dump does not translate objects through jsonclass.dump", q.loc(fjd, fjd.node))
+    # (one translation per message: a single call, or one per kind of message, each return of a built message being reached only
+    # through a test of config.use_jsonclass)
+    gjd = cfg_of(fjd)
+    okc = len(cs) == 1
+    if len(cs) > 1:
+        from vlib.flow import reachable_avoiding as _ra74
+        gates = set(n_.id for n_ in gjd.live_nodes() if n_.kind == "branch" and "use_jsonclass" in dump(n_.test))
+        djd = dominators(gjd)
+        okc = bool(gates) and all(any(gjd.nodes[d].kind == "branch" and gjd.nodes[d].polarity and "use_jsonclass" in dump(gjd.nodes[d].test)
+                                      for d in djd[n_.id]) for (n_, _c) in cs)
+        for rn_ in [x for x in gjd.live_nodes() if x.kind == "return" and x.ast is not None and isinstance(x.ast.value, ast.Call) and
+                    isinstance(x.ast.value.func, ast.Attribute) and x.ast.value.func.attr in ("request", "notify", "response", "error") and
+                    any(isinstance(a_, ast.Name) and a_.id == "params" for a_ in x.ast.value.args)]:
+            if rn_.id in _ra74(gjd, gjd.entry.id, gates, lambda l: l != "exc"):
+                okc = False
+    ck.require(okc, "C07.4", "jsonrpc.dump: jsonclass.dump call", "one call", "jsonrpc.dump does not translate objects through jsonclass.dump", q.loc(fjd, fjd.node))
+    # whether the parameters / the result are translated depends on the configuration alone: a test of the value itself on the way
+    # to the call (its type, its emptiness) whose other edge goes on without translating skips the handlers registered for such values
+    djd0 = dominators(gjd)
+    for (n_, c_) in cs:
+        for d_ in djd0[n_.id]:
+            b_ = gjd.nodes[d_]
+            if b_.kind != "branch" or not any(isinstance(x, ast.Name) and x.id == "params" for x in ast.walk(b_.test)):
+                continue
+            if isinstance(b_.test, ast.Call) and dump(b_.test.func) == "isinstance" and len(b_.test.args) == 2 and dump(b_.test.args[1]) == "Fault":
+                continue        # (a Fault is not a value to translate: it selects the error form of the message)
+            sib = [x for x in gjd.live_nodes() if x.kind == "branch" and x.test is b_.test and x.polarity is not b_.polarity]
+            from vlib.flow import reachable_avoiding as _ra74b
+            skips = any(gjd.return_exit.id in _ra74b(gjd, s_.id, set([n_.id]), lambda l: l != "exc") for s_ in sib)
+            ck.require(not skips, "C07.4", "jsonrpc.dump: translation decided by the configuration alone", "no test of the value guards jsonclass.dump",
+                       "jsonclass.dump is applied only under `%s`: values failing that test are emitted untranslated - a handler registered in "
+                       "serialize_handlers for their type is not used at the top level (and the JSON backend then refuses the value)" % dump(b_.test)[:60],
+                       q.loc(fjd, b_))
     for (n, c) in cs:
         t = q.arg_origin(fjd, n, c, "config", 4)
         ck.require(t == ("param", "config"), "C07.4", "jsonrpc.dump: jsonclass.dump(config=...)", "caller's config",
@@ -214,7 +259,7 @@ def check(ck):
             if isinstance(c.func, ast.Name) and c.func.id != "load" and (any(isinstance(a, ast.Starred) for a in c.args) or any(k.arg is None for k in c.keywords)):
                 n8 += 1
                 t = prov.origin(gl, n, c.func)
-                bad = []
+                bad, n_main, n_imp = [], [], []
                 for a in prov.value_alts(t):
                     table = a[0] == "item" and a[1] == ("param", "classes")
                     # getattr(<module>, <name>) where the module can only be what __import__ / importlib returned in this call (the
@@ -223,8 +268,18 @@ def check(ck):
                     imported = a[0] == "call" and a[1] == ("global", "getattr") and len(a[2]) >= 2 and \
                         all(m_[0] == "call" and (m_[1] == ("global", "__import__") or (m_[1][0] == "attr" and m_[1][2] == "import_module"))
                             for m_ in prov.value_alts(a[2][0]))
+                    # (the main script, for a bare name: always present and initialised; accepted beside the import alternative)
+                    main_mod = a[0] == "call" and a[1] == ("global", "getattr") and len(a[2]) >= 2 and \
+                        all(_is_main_module(m_) for m_ in prov.value_alts(a[2][0]))
+                    if main_mod:
+                        n_main.append(a)
+                        continue
+                    if imported:
+                        n_imp.append(a)
                     if not (table or imported):
                         bad.append(prov.show(a)[:70])
+                if n_main and not n_imp:
+                    bad.append("only the main script (no module is imported for a dotted name)")
                 ck.require(not bad, "C07.8", "%s: class instantiated by `%s`" % (q.fn(fl), dump(c)[:50]),
                            "classes[<name>] or getattr(__import__(<module>), <name>) of this call",
                            "the class instantiated for a descriptor can be %s: not the entry of the caller's class table nor the attribute "
@@ -377,11 +432,23 @@ def check(ck):
     st_add = [n for n in gadd.live_nodes() if n.kind == "stmt" and isinstance(n.ast, ast.Assign) and isinstance(n.ast.targets[0], ast.Subscript) and
               dump(n.ast.targets[0].value) == "self"]
     # (a guard that only separates "no class given" - the decorator-factory form - from a registration is no condition on the latter)
+    def _no_class_expr(t_):
+        """-> True / False: the test is true / false exactly when no class was given (None, or a string - a name - in its place)"""
+        if isinstance(t_, ast.Compare) and len(t_.ops) == 1 and isinstance(t_.ops[0], (ast.Is, ast.IsNot)) and \
+                isinstance(t_.left, ast.Name) and t_.left.id == "cls" and isinstance(t_.comparators[0], ast.Constant) and \
+                t_.comparators[0].value is None:
+            return isinstance(t_.ops[0], ast.Is)
+        if isinstance(t_, ast.Call) and dump(t_.func) == "isinstance" and len(t_.args) == 2 and dump(t_.args[0]) == "cls" and \
+                dump(t_.args[1]) in ("str", "utils.STRING_TYPES", "STRING_TYPES", "(str,)"):
+            return True
+        if isinstance(t_, ast.BoolOp) and isinstance(t_.op, ast.Or) and all(_no_class_expr(v_) is True for v_ in t_.values):
+            return True
+        return None
+
     def _no_class_test(b_):
-        t_ = b_.test
-        return isinstance(t_, ast.Compare) and len(t_.ops) == 1 and isinstance(t_.ops[0], (ast.Is, ast.IsNot)) and \
-            isinstance(t_.left, ast.Name) and t_.left.id == "cls" and isinstance(t_.comparators[0], ast.Constant) and \
-            t_.comparators[0].value is None and b_.polarity == isinstance(t_.ops[0], ast.IsNot)
+        # (on the registration path the test came out as "a class was given")
+        r_ = _no_class_expr(b_.test)
+        return r_ is not None and b_.polarity != r_
     cond_add = [n for n in st_add if any(gadd.nodes[i].kind == "branch" and not _no_class_test(gadd.nodes[i]) for i in dominators(gadd)[n.id])]
     if cond_add and len(st_add) == 1:
         # guards that reject (raise) instead of registering are no silent skip: every normal return that hands back a registration
@@ -389,7 +456,8 @@ def check(ck):
         rets_add = [r_ for r_ in gadd.live_nodes() if r_.kind == "return" and not any(
             _no_class_test(gadd.nodes[i]) is False and False for i in ())]
         decorator_rets = [r_ for r_ in rets_add if any(gadd.nodes[i].kind == "branch" and isinstance(gadd.nodes[i].test, ast.Compare) and
-                                                       dump(gadd.nodes[i].test) in ("cls is None",) and gadd.nodes[i].polarity for i in dominators(gadd)[r_.id])]
+                                                       dump(gadd.nodes[i].test) in ("cls is None",) and gadd.nodes[i].polarity for i in dominators(gadd)[r_.id]) or
+                          any(gadd.nodes[i].kind == "branch" and _no_class_expr(gadd.nodes[i].test) is True and gadd.nodes[i].polarity for i in dominators(gadd)[r_.id])]
         if all(common.must_pass(gadd, r_.id, [st_add[0].id]) for r_ in rets_add if r_ not in decorator_rets):
             cond_add = []
     weak = [c for n in gadd.live_nodes() for c in node_calls(n) if isinstance(c.func, ast.Attribute) and dump(c.func.value) == "self" and
